@@ -12,8 +12,8 @@ from common import Ctx, InfraError, VERIF  # noqa: E402
 
 from translate import c19gen  # noqa: E402
 
-LEAN_TARGETS = ["QuriVerif.Props.C19", "QuriVerif.Props.C19Lib", "QuriVerif.Driver.C19"]
-OBLIGATION_MODULES = ["QuriVerif.Props.C19", "QuriVerif.Props.C19Lib", "QuriVerif.Generated.C19Lib"]
+LEAN_TARGETS = ["QuriVerif.Props.C19", "QuriVerif.Props.C19Lib", "QuriVerif.Props.C19Lift", "QuriVerif.Props.C19SubLift", "QuriVerif.Driver.C19"]
+OBLIGATION_MODULES = ["QuriVerif.Props.C19", "QuriVerif.Props.C19Lib", "QuriVerif.Props.C19Lift", "QuriVerif.Props.C19SubLift", "QuriVerif.Generated.C19Lib"]
 ENTRY = "DriverC19.lean"
 
 TRUSTED = [
@@ -2179,7 +2179,9 @@ def run(ctx: Ctx, replay=None) -> int:
     if ok:
         names = [f"QV.Props.C19.{n}" for _, n, _ in ctx.count_obligations(["QuriVerif.Props.C19"])]
         names += [f"QV.Props.C19Lib.{n}" for _, n, _ in ctx.count_obligations(["QuriVerif.Props.C19Lib"])]
-        ctx.audit(names, ["QuriVerif.Props.C19", "QuriVerif.Props.C19Lib"])
+        names += [f"QV.Props.C19Lift.{n}" for _, n, _ in ctx.count_obligations(["QuriVerif.Props.C19Lift"])]
+        names += [f"QV.Props.C19SubLift.{n}" for _, n, _ in ctx.count_obligations(["QuriVerif.Props.C19SubLift"])]
+        ctx.audit(names, ["QuriVerif.Props.C19", "QuriVerif.Props.C19Lib", "QuriVerif.Props.C19Lift", "QuriVerif.Props.C19SubLift"])
     broken = bool(ctx.failed_obligations)
     with ctx.timed("correspond"):
         if replay:
